@@ -3,6 +3,20 @@
 ZSTD = "zstd crate: decompress(compress(x)) = x and context-history independence (exercised, not proved)"
 
 PROPS = {
+    "C12": {
+        "level": "proof",
+        "assumptions": [
+            "ZSTD (zstd / zstd-safe crates) is a parameter of the model: the theorems assume decompress(compress(l, x)) = x "
+            "and that a frame is never empty; both, and the independence of the frame from the history of the "
+            "thread-local compression context, are exercised on the real library on every run (counters zstd_*), not proved",
+            "Model/Tuple.lean mirrors tuple_packing.rs (incl. its panics on malformed input, in both arithmetic profiles), "
+            "Model/SegCompress.lean mirrors segment_compression.rs and the stored-part framing of agc_compressor.rs / "
+            "decompressor.rs; tied by byte-exact correspondence on exhaustive small alphabets and random strings to 100 kB",
+            "the repetitiveness test (IEEE doubles) only selects the marker; the theorems hold for either choice, the "
+            "executable model uses Lean Float and an integer reformulation, both compared with the code around the 0.5 threshold",
+        ],
+        "trusted": [ZSTD],
+    },
     "C20": {
         "level": "proof",
         "assumptions": [
